@@ -103,6 +103,22 @@ CHECKS = {
         note="Trusted: Lean kernel, allowed axioms, binary-level harness. `tiAccepts` is a specification of ti's arity rule, validated end-to-end outside the two known-finding regions. Not modelled: the regular expressions, the GET_*_ARG heuristics (outside the statement).",
         technique="Lean 4 proof (arity equivalence for all definitions) + binary-level differential check + end-to-end arity sweep 0..6",
     ),
+    "C19": dict(
+        category="proof",
+        text="Table-level core: the global TFrame is modelled as a Go map; Lean proves that ANY permutation of a sequence of writes to pairwise distinct keys yields the same answer to EVERY lookup (so renaming files = permuting the load order, and splitting = re-partitioning the same writes, cannot matter in that regime), "
+             "and proves with a witness that the full statement fails when one key is written twice (first declaration becomes primary). Per-declaration parsing is C21's model (stream re-run). End-to-end: shipped configuration with files renamed into random orders; generated hierarchies unsplit vs split over 2-3 files in random orders; programs calling every own and inherited method.",
+        design="DESIGN.md §4 C19",
+        note="Partial: definition-time lookups of the loader (GetMethodT fallbacks that attach a method to an ancestor's / Builtin's entry as an overload) are outside the model; the generated configurations stay in the distinct-key regime and say so in the evidence.",
+        technique="Lean 4 proof (commutation of map writes under permutation) + differential config stream + end-to-end rename/split comparison",
+    ),
+    "C20": dict(
+        category="proof",
+        text="Lean: writes to keys a program never looks up are invisible to all its lookups; token classification over the flat BuiltinClasses list is unchanged by added short names the identifier does not equal; the short-name collision is refuted with a witness (known limitation). "
+             "The classification model is tied by the tok stream (run with the configured class list). End-to-end: corpus and generated programs with and without generated extra configuration files (plain and namespaced frames, extends of shipped classes) whose class names never occur in the program.",
+        design="DESIGN.md §4 C20",
+        note="Partial: evaluator uses of BuiltinClasses beyond token classification are covered end-to-end only. Known limitation: an added class whose SHORT name equals a program identifier in another frame changes that identifier's token kind.",
+        technique="Lean 4 proof (frame lemma for map writes, classification lemma) + differential tok stream + end-to-end with/without extra configuration",
+    ),
 }
 
 PENDING_REASON = "check not built yet in this session (see DESIGN.md §4 for the planned Lean model and theorem); not claimed until its check exists"
